@@ -120,6 +120,17 @@ func genC06(g *G) {
 			}
 		}
 	}
+	// every value of every byte inside the prefix (and of the one after it), the other bytes as in the base
+	for _, p := range sourcePrefixes() {
+		base := p.Addr().AsSlice()
+		for pos := 0; pos < len(base) && pos <= p.Bits()/8; pos++ {
+			for v := 0; v < 256; v++ {
+				f := append([]byte{}, base...)
+				f[pos] = byte(v)
+				emit(f, "")
+			}
+		}
+	}
 	// two byte positions at once, with values whose sums carry (arithmetic over wider words wraps there)
 	for _, p := range sourcePrefixes() {
 		base := p.Addr().AsSlice()
